@@ -193,6 +193,13 @@ def run(ctx, repo):
     rk = J.get('ranking_key')
     if rk is None:
         raise AnalysisError('anchor vanished: Jumper.ranking_key')
+    # a key cached in an attribute (`if self._k is None: self._k = self._make(); return self._k`) is followed to the function
+    # that computes it; the completeness of its invalidation is rule HIST (sa/memo.py, derived attribute not invalidated)
+    from ..memo import instance_memos
+    for _c, holder, _attr, comp, _m, _s in instance_memos(mod):
+        if holder is rk and comp and comp[0] is not rk:
+            ctx.info('ranking_key is cached in self.%s; the key is computed by %s' % (_attr, comp[0].name))
+            rk = comp[0]
     rets = [n for n in ast.walk(rk) if isinstance(n, ast.Return)]
     if len(rets) != 1 or not isinstance(rets[0].value, ast.Tuple) or len(rets[0].value.elts) != 4:
         raise AnalysisError('ranking_key does not return one 4-tuple')
